@@ -77,7 +77,7 @@ static int check_against(const struct jls_statistics_s *s, const ref_t *r, int m
     struct jls_statistics_s t = *s;
     double var = jls_statistics_var(&t);
     if (!(var >= 0)) { snprintf(key, sizeof(key), "var-negative|%s", method_name[method]); v_violation("C20", key, wj, "jls_statistics_var = %.17g", var); bad = 1; }
-    if (!((long double) s->mean >= r->mn - tol_m && (long double) s->mean <= r->mx + tol_m)) {
+    if (!((long double) s->mean >= r->mn && (long double) s->mean <= r->mx)) {   /* the statement lists min <= mean <= max without a rounding allowance */
         snprintf(key, sizeof(key), "mean-outside-minmax|%s", method_name[method]);
         v_violation("C20", key, wj, "mean %.17g outside [%.17Lg, %.17Lg]", s->mean, r->mn, r->mx); bad = 1;
     }
